@@ -681,6 +681,16 @@ func (fr *frame) val(v ssa.Value) T {
 	case *ssa.Builtin:
 		return T{"0", "Int", nil}
 	}
+	if fa, ok := v.(*ssa.FieldAddr); ok {
+		// the address of a field used as a value (a mutex handed to Lock/Unlock): a function of the
+		// struct pointer and the field, so that two takes of the same address agree
+		if _, isPtr := unalias(fa.X.Type()).Underlying().(*types.Pointer); isPtr {
+			fr.vc.decl("iptr", "(declare-fun iptr (Int Int) Int)")
+			t := T{fmt.Sprintf("(iptr %s %d)", fr.val(fa.X).S, fa.Field), "Int", v.Type()}
+			fr.vals[v] = t
+			return t
+		}
+	}
 	switch v.(type) {
 	case *ssa.IndexAddr, *ssa.FieldAddr:
 		// an interior pointer used as a value (passed on, stored): opaque
